@@ -2,7 +2,9 @@ import HapVerif.Model.C01
 import HapVerif.Drv.Common
 /-
 Driver of C01. Case line: `C01 hist <op> <op> ... => <verdict> <obs> <obs> ...`
-  op      : one operation of harness/world/ops.go, `sync` = reconcile boundary
+  op      : one operation of harness/world/ops.go, `sync` = reconcile boundary; the pseudo op
+            `opt~db=<ns>/<svc>` (anywhere, the last one wins) = controller option --default-backend-service:
+            the history starts from `optWorld` (the pseudo source is a member of the cluster), no event
   verdict : eq | diff:<first differing line of the two normal forms> | err:<..>
   obs     : one token per sync, what the REAL controller did (see harness/cmd/hv/c01.go c01obs)
 The model replays the history; `agree` = it predicts every observation of every sync:
@@ -81,6 +83,21 @@ inductive Tok
   | sync
   | bad (s : String)
 
+/-- the controller options of a history (`syncOptions` of the harness): `some (some (ns, svc))` =
+--default-backend-service, `some none` = not set, `none` = an option outside the model (`opt~xns=1`, a value
+that is not `ns/svc`); unknown `opt~…` tokens are ignored, as the harness does -/
+def parseOptions (toks : List String) : Option (Option (String × String)) :=
+  toks.foldl (fun acc t =>
+    match acc with
+    | none => none
+    | some cur =>
+      if t.startsWith "opt~db=" then
+        match ((t.drop 7).toString).splitOn "/" with
+        | [ns, svc] => if ns = "" ∨ svc = "" then none else some (some (ns, svc))
+        | _ => none
+      else if t = "opt~xns=1" then none
+      else some cur) (some none)
+
 def parseOp (t : String) : Tok :=
   if t = "sync" then .sync else
   let pick : Option (String × Char × String) :=
@@ -132,9 +149,15 @@ def tracerAnn : List String := ["app-root", "balance-algorithm", "ssl-redirect",
 
 def opInFragment : Op → Bool
   | .ingSet i =>
+    -- the pseudo source of --default-backend-service sorts before every real ingress and no real
+    -- ingress shares its key or its port marker
+    !i.pseudo && i.ns ≠ "" && ingLE (optIngress "" "") i && i.key ≠ (optIngress "" "").key &&
+    (i.defBackend.all fun sp => sp.2 ≠ firstPort) &&
+    i.rules.all (fun r => r.paths.all fun p => p.port ≠ firstPort) &&
     i.ann.all (fun kv => kv.1 ∈ tracerAnn) &&
     i.tls.all (fun t => !(t.secret.contains '/') && !(t.secret.contains ':')) &&
     i.rules.all (fun r => !(r.host.contains ':') && r.paths.all fun p => !(p.svc.contains '/'))
+  | .ingDel k => k ≠ (optIngress "" "").key
   | .svcSet s => s.ann.all fun kv => kv.1 ∈ tracerAnn
   | .cmSet d => d.all fun kv => kv.1 ∈ ["drain-support", "max-connections"]
   | _ => true
@@ -275,7 +298,9 @@ def doSync (r : Run) (obs? : Option String) : Run :=
 
 def handle (args : List String) (impl : String) : Verdict :=
   match args with
-  | "hist" :: ops =>
+  | "hist" :: ops0 =>
+    let opts := parseOptions ops0
+    let ops := ops0.filter fun t => !t.startsWith "opt~"
     let toks := ops.map parseOp
     match toks.findSome? (fun | .bad s => some s | _ => none) with
     | some s => bad ("op:" ++ s)
@@ -284,7 +309,8 @@ def handle (args : List String) (impl : String) : Verdict :=
       let iw := words impl
       let verdict := iw.headD "?"
       let obs := iw.drop 1
-      let inFrag := toks.all fun | .op o => opInFragment o | _ => true
+      let inFrag := opts.isSome && toks.all fun | .op o => opInFragment o | _ => true
+      let w0 := optWorld (opts.getD none)
       let hasTCP := toks.any fun | .op (.ingSet i) => i.ann.any (·.1 = "tcp-service-port") | _ => false
       let oracleOf (sig : Option String) : Option String :=
         if verdict = "eq" then none
@@ -299,7 +325,7 @@ def handle (args : List String) (impl : String) : Verdict :=
           match t with
           | .op o => let (w', b') := applyOp (ro.1.w, ro.1.b) o; ({ ro.1 with w := w', b := b' }, ro.2)
           | .sync => (doSync ro.1 ro.2.head?, ro.2.drop 1)
-          | .bad _ => ro) (({} : Run), obs)
+          | .bad _ => ro) (({ wPrev := w0, w := w0 } : Run), obs)
         let run := r.1
         -- the implementation stops at the first difference: fewer observations than syncs is fine then
         let short := obs.length < run.k ∧ verdict = "eq"
